@@ -82,7 +82,7 @@ def run(rep, tier, seed, replay=None, proof_ok=True):
     q = pc.detect_pquirks()
     rep.coverage['quirks_detected'] = dict(zip(pc.PQUIRKS, q))
     pc.pyb_known(rep, q, 'C09')
-    dis = pc.correspond(rep, tier, seed + 2, q, view, 120, 3000)
+    dis = pc.correspond(rep, tier, seed + 2, q, view, 120, 3000, e2e=True)
     pc.report(rep, dis, 'pybind wrap_file vs Pybind/Gen.v+Render.v (all records)')
     # direct checks
     cases, _ = pc.gen_cases(tier, seed + 3, 80, 1500)
